@@ -1,6 +1,7 @@
 import ZapVerif.Proofs.Publish
 import ZapVerif.Proofs.Deadlock
 import ZapVerif.Gen.SyncFacts
+import ZapVerif.Gen.Delegates
 /-! # C09 — the documented concurrent API is free of data races, deadlocks (and panics: sampled only)
 
 Generic part (proved once over M10, `Model/Sync.lean`): a synchronisation *discipline* followed by all
@@ -92,6 +93,18 @@ theorem all_fields_disciplined : SyncFacts.allDisciplined Gen.SyncFacts.table = 
 
 /-- option closures (the only writers of Logger/Handler/sampler fields) are applied to fresh objects only -/
 theorem apply_sites_fresh : Gen.SyncFacts.applySites.all id = true := by decide +kernel
+
+/-- the lock-protected wrappers (`zapcore.Lock`'s lockedWriteSyncer, BufferedWriteSyncer) call into the wrapped, not
+    concurrency-safe WriteSyncer / bufio.Writer ONLY while holding their mutex — every call site of today's source
+    (regenerated table Gen/Delegates; helpers that do not lock are guarded iff all their callers hold the lock) -/
+theorem delegate_calls_guarded : Gen.Delegates.rows.all (fun r => r.2.2.2.2.1) = true := by decide
+
+/-- … and the table is not vacuous: both Write and Sync of each wrapper reach the wrapped object through such a site -/
+theorem delegate_surface :
+    (["Write", "Sync"].all fun m => Gen.Delegates.rows.any fun r => r.1 == "lockedWriteSyncer" && r.2.1 == m && r.2.2.1 == "ws") = true ∧
+    (Gen.Delegates.rows.any fun r => r.1 == "BufferedWriteSyncer" && r.2.2.1 == "WS" && r.2.2.2.1 == "Sync") = true ∧
+    (Gen.Delegates.rows.any fun r => r.1 == "BufferedWriteSyncer" && r.2.2.1 == "writer" && r.2.2.2.1 == "Write") = true ∧
+    (Gen.Delegates.rows.any fun r => r.1 == "BufferedWriteSyncer" && r.2.2.1 == "writer" && r.2.2.2.1 == "Flush") = true := by decide
 
 /-- inside critical sections: only calls into the wrapped object, known non-blocking helpers, or (ObservedLogs.Filter)
     the caller's predicate — no channel operation, select, Wait, Sleep, second lock, or re-entry into the own object -/
